@@ -2,6 +2,10 @@
 from contracts import wrapc_capsule as W
 
 MONITORS = dict((u.name, ("m_capsule", lambda v: None, lambda nm: None, 20000)) for u in W.UNITS)
+# the slices of the generator that pick the table key and emit the switch: end-to-end text check as bounded stand-in
+for _u in W.UNITS:
+    if _u.name in ("compute_idtor", "write_capsule_code") or _u.name.startswith(("compute_idtor", "write_capsule_code")):
+        MONITORS[_u.name] = ("m_idtor", lambda v: None, lambda nm: None, 100)
 
 
 def run(ctx):
@@ -26,6 +30,15 @@ def run(ctx):
         "wrapp.py (CPython reference counts and capsule destructors)",
         "the scan for a wrapped destructor in compute_idtor (slice starts after it)",
     ]
+    I.capsule_dummy_intent(ctx, tabs)
+    r0 = ctx.monitor("m_idtor", "search", 100, ctx.seed)
+    ctx.bounded.append({"monitor": "m_idtor", "inputs_tried": r0["tried"], "violation": r0["violation"],
+                        "kind": "bounded: generated text of 6 class libraries (same class name in two namespaces, nested namespaces, "
+                                "several classes with owner(caller)/by-value results, F_CFI, class templates): every `new T` whose "
+                                "capsule gets index N is released by `case N` of the memory destructor as a T; labels distinct",
+                        "bound": "%d libraries" % r0["tried"]})
+    if r0["violation"]:
+        ctx.violation("bounded/m_idtor", {"inputs": r0["inputs"], "observed": r0["violation"]}, True)
     # known finding replayed on the real code (end-to-end, LeakSanitizer)
     import json
     for k in ctx.known:
